@@ -57,8 +57,8 @@ func zzvC19Topology() *CPUTopology {
 // CPU-set catalogues: odd shapes (gaps, single CPUs, runs, everything, nothing); the two pods draw from
 // disjoint halves as the allocator would have given them
 var zzvC19Sets = [][][]int{
-	{{}, {0}, {1, 5}, {0, 1, 4}, {0, 1, 4, 5}, {5}},
-	{{}, {2}, {3, 6}, {2, 3, 7}, {2, 3, 6, 7}, {6, 7}},
+	{{}, {1, 5}, {0, 1, 4}, {0, 1, 4, 5}, {0}, {5}},
+	{{}, {3, 6}, {2, 3, 7}, {2, 3, 6, 7}, {2}, {6, 7}},
 }
 
 func zzvC19Amount(l corev1.ResourceList, name corev1.ResourceName) int64 {
